@@ -488,13 +488,13 @@ func (w *World) evalConfirm(n *Node, cur *Snap, v *accountant.Vertex, op OpInfo)
 	// the checkpoint cannot carry a debt: it holds 0 for a wallet whose checkpointed net flow is negative, so the node
 	// sees the wallet richer by that debt at most. A shortfall within it is the known consequence of the C02 finding;
 	// a larger one is not explained by it.
-	if debt.Sign() > 0 && new(big.Int).Sub(need, in).Cmp(debt) <= 0 {
-		ev.CheckpointOverdrawn = true
-	}
 	if issuer == v.Transaction.ReceiverAddress {
 		// a self transfer counts on both sides, exactly as the code accumulates it
 		in = new(big.Int).Add(in, ev.Amount)
 		ev.In = in
+	}
+	if debt.Sign() > 0 && new(big.Int).Sub(need, in).Cmp(debt) <= 0 {
+		ev.CheckpointOverdrawn = true
 	}
 	ev.OK = in.Cmp(need) >= 0
 	margin := new(big.Int).Sub(in, need)
